@@ -232,7 +232,7 @@ META["C03"] = dict(
     "config texts, environment mappings and Python objects, over five parser shapes (flat+groups, class/dataclass arguments, "
     "nested subcommands, links, positionals) in both exit_on_error modes. Termination is judged on a logical step budget "
     "(4e6 Python function entries per call, counted with sys.monitoring), not on wall-clock time."
-    " A sixth shape has an existing default config file and a required option; for half of the cases the same input is run under the opposite exit_on_error mode and the decisions must agree (what fails in one mode cannot print a config and exit 0 in the other).",
+    " A sixth shape has an existing default config file and a required option; for half of the cases the same input is run under the opposite exit_on_error mode and the decisions must agree (what fails in one mode cannot print a config and exit 0 in the other). Values are partly aimed at the option's type (out-of-range numbers for numeric / restricted / registered types, scalars and mappings for list-valued options, nargs with choices); --cfg values include null or unknown subcommand sections and the config option's own key.",
     level_note="Trusted: the classification of documented outcomes (Namespace, ArgumentError, exit 2 with usage+error, exit 0 for "
     "help/print_config). Sampled inputs; a wall-clock watchdog firing is INCONCLUSIVE.",
     shards=g(4, 16),
@@ -271,7 +271,7 @@ META["C04"] = dict(
     "list-typed, dict-typed); compared key by key with what the real parser returns, for parse_args, parse_env, parse_string, "
     "parse_object and parse_path, with default_env off / on / env=True / JSONARGPARSE_DEFAULT_ENV. Values carry the index of the "
     "source that wrote them."
-    " Further keys: an option spelled with a hyphen, a Sequence with a tuple default, a list of lists, a Mapping with a MappingProxyType default, a Dict with an OrderedDict default; a default config file matched by a pattern and listed again after it; a second call on the same parser (same sources, or only the standing sources); parse_path of a config in another directory than the process.",
+    " Further keys: an option spelled with a hyphen, a Sequence with a tuple default, a list of lists, a Mapping with a MappingProxyType default, a Dict with an OrderedDict default; a default config file matched by a pattern and listed again after it; a second call on the same parser (same sources, or only the standing sources); parse_path of a config in another directory than the process. Default config files come with decoys that must not disturb the others: a directory matched by the pattern, a file holding only comments.",
     level_note="Trusted: vf.models.fold (the statement rewritten as code). Sampled scenarios; only unambiguous values "
     "(ints, bools, words, int lists, str->int dicts).",
     shards=g(4, 16),
@@ -333,7 +333,7 @@ META["C06"] = dict(
     "token, prefixes of defined names, '+'-suffixed names; scalar, empty mapping, mapping or null value) is inserted at every node "
     "where the parser defines the keys, or one required key is removed / nulled; object, config string, --cfg string, --cfg file, "
     "parse_path and argv must reject, the error must contain the foreign key; leftover argv and parse_known_args are probed."
-    " Required-key mutations are also parsed with defaults=False (object and text), including a subcommand whose only setting is the required option and a required option of a second-level subcommand.",
+    " Required-key mutations are also parsed with defaults=False (object and text), including a subcommand whose only setting is the required option and a required option of a second-level subcommand. Keys below dict_kwargs of a class whose __init__ has no **kwargs count as foreign keys.",
     level_note="Trusted: the hand-written templates' list of nodes at which keys are defined by the parser (never under Dict-typed "
     "values, Any or dict_kwargs). A case whose valid configuration is not accepted by all channels is skipped and counted.",
     shards=g(4, 16),
@@ -397,7 +397,7 @@ META["C09"] = dict(
     "get_defaults, dump, validate, instantiate_classes, parse_args(namespace=...) and operations on another parser of the same "
     "process, on parsers with config arguments, subclass arguments with lazy defaults (one name a prefix of another), "
     "Optional classes, dataclasses, class groups, links, subcommands and default config files, in both exit_on_error modes; "
-    "every step's outcome on the long-lived parser is compared with the same step on a freshly built identical parser.",
+    "every step's outcome on the long-lived parser is compared with the same step on a freshly built identical parser. One history in seven is dedicated: a help / print step, then only steps that read what the parser knows.",
     level_note="All sides run the same code, so wording changes cannot alarm. State kept outside the parser (context variables, "
     "module globals, caches) would influence a fresh parser of the same process just as much, so every step is also compared "
     "with its outcome in a process without any history: a reference server forked before the shard's first parse forks one child "
@@ -430,7 +430,7 @@ META["C14"] = dict(
     "missing required init_args, non-str class_path) through object, argv and config text against Base, Optional[Base] and "
     "Union[Base,int]; instantiate_classes judged by the constructor log (exact type, once, configured init_args + dict_kwargs, "
     "children first and as objects); six short notations compared with the explicit form; class changes between sources."
-    " Two-source scenarios: a class chosen by an earlier --cfg, then a later --cfg giving only init_args for that position (plain option, several entries of a Dict[str, Base], a class group inside a subcommand), compared with the same later source written with its class_path.",
+    " Two-source scenarios: a class chosen by an earlier --cfg, then a later --cfg giving only init_args for that position (plain option, several entries of a Dict[str, Base], a class group inside a subcommand), compared with the same later source written with its class_path. After a class change, parameters that no source touched must carry the defaults of the finally chosen class.",
     level_note="Trusted: issubclass / inspect.signature of the generated family as ground truth; one family, randomised specs.",
     shards=g(4, 16),
     budget=g(40, 240),
@@ -458,7 +458,7 @@ META["C15"] = dict(
     "source incl. None, required target) and links inside a subcommand's parser (with and without links in the parent); source "
     "values arrive from argv, --cfg, object, config string, environment and defaults; a value for the target itself is supplied "
     "through config/object/class spec in half of the cases. After each parse the target is recomputed from the final sources "
-    "with the generator's own copy of the function; dumps are inspected for the target and re-parsed.",
+    "with the generator's own copy of the function; dumps are inspected for the target and re-parsed. Links inside a subcommand's parser are also driven with the subcommand named through the environment.",
     level_note="Trusted: the generator's copies of the compute functions and the YAML reader used to inspect dumps.",
     shards=g(4, 16),
     budget=g(40, 240),
@@ -517,7 +517,7 @@ META["C18"] = dict(
     "init_args), a value of a user-registered type whose serializer raises (top level and inside the inner parser), and an "
     "injected OSError at the 1st..4th write-open. Oracle: SHA-256 directory snapshots before/after and the audit log of "
     "write-opens; successful saves are parsed back and compared."
-    " After the fault loop: a multi-file save that fails after its sub-files were collected, followed by a successful multi-file save into another directory; the directory of the failed save must stay untouched.",
+    " After the fault loop: a multi-file save that fails after its sub-files were collected, followed by a successful multi-file save into another directory; the directory of the failed save must stay untouched. A value the file encoding cannot write is one of the serialisation faults; in single-file mode the target is also spelled as an fsspec path (local://).",
     level_note="Trusted: snapshot comparison; injected OSError runs are judged only against 'no existing file modified unless "
     "overwrite is requested'. Read-only directories are not exercised (checks run as root). Quick samples 5 fault positions per scenario.",
     shards=g(4, 16),
@@ -637,7 +637,7 @@ META["C13"] = dict(
     "recursive model over Python's own MRO computing the reachable named parameters from the generator's spec, and the "
     "interpreter (calls with each candidate parameter). Compared with get_signature_parameters: offered set, hard-coded names, "
     "annotation and default per parameter; then add_class_arguments + parse + instantiate_classes with every offered parameter, "
-    "and enforcement of required ones.",
+    "and enforcement of required ones. An offered parameter the model does not expect is confirmed by constructing the object and, where **kwargs are kept in an attribute, by using it.",
     level_note="Only documented patterns are composed; a case where the interpreter itself rejects the model's parameter set is "
     "skipped and counted (generator inconsistency, not a verdict). Conditional<ast-resolver> parameters are excluded from 'offered'.",
     shards=g(4, 16),
